@@ -16,3 +16,10 @@ open Clipper.Props.C13Spec
 #print axioms inFill_neg
 #print axioms wind_mirrorX_offBoundary
 #print axioms offSpan_of_not_onBoundary
+#print axioms crossing_transpose
+#print axioms crossing_sub_crossingV
+#print axioms windPathV_eq_windPath
+#print axioms windV_eq_wind
+#print axioms wind_transpose_eq_windV
+#print axioms wind_transpose
+#print axioms inFill_transpose
